@@ -315,6 +315,9 @@ func (w *World) AccStr(tok string) string {
 		return sdk.AccAddress(w.Vals[i]).String()
 	case 'O':
 		return upper(sdk.AccAddress(w.Vals[i]).String())
+	case 'p':
+		// a well-formed address with white space around it: not an address
+		return " " + w.Acc(i).String() + "\n"
 	}
 	panic("bad account token " + tok)
 }
